@@ -37,14 +37,16 @@ QFrames == {"ICRS", "GAL"}
 TFrames == {"ICRS", "GAL", "FK5"}
 MCDefaultCase == Case("astropix", MCDefaultFx, <<600, 400, 300, 200>>, "frac", <<10, 20>>, <<<<-1, 100>>, <<1, 100>>>>, <<<<3, 5>>, <<4, 5>>>>, "ICRS")
 
-Devs == [RescaleSkewed |-> RescaleSkewed(Cur), FrameIgnored |-> FrameIgnored(Cur), MirroredTiledRaises |-> MirroredTiledRaises(Cur),
-         Approximated |-> (Computable /\ Approximated(Cur)), SmallImagePadded |-> SmallImagePadded(Cur)]
-\* everything checks/g08.py needs to drive the real code with this case and to judge what comes back
-Emit == PrintT(<<"A", ToJson([cs |-> Cur, refpix |-> RefPixOf(Cur), fetch |-> Fetch(Cur), ext |-> CacheExt(Cur), credits |-> CreditsFrom(Cur),
-                               hraise |-> HeadersRaise(Cur),
-                               hd |-> IF Computable THEN Hd ELSE [crval |-> <<>>, crpix |-> <<>>, cd |-> <<>>],
-                               pr |-> Pr, lev |-> Levels(Cur), p2 |-> P2(Cur), g0 |-> <<Gx0(Cur), Gy0(Cur)>>,
-                               refdisp |-> RefDisplay(Cur),
-                               placeAtRef |-> (Computable /\ RefDisplay(Cur) = <<Q(W(Cur), 2), Q(H(Cur), 2)>>),
-                               dev |-> Devs, ideal |-> Ideals])>>)
+Devs(cs) == [RescaleSkewed |-> RescaleSkewed(cs), FrameIgnored |-> FrameIgnored(cs), MirroredTiledRaises |-> MirroredTiledRaises(cs),
+             Approximated |-> (Comp(cs) /\ Approximated(cs)), SmallImagePadded |-> SmallImagePadded(cs)]
+\* INVARIANT: the theorems hold, and everything checks/g08.py needs to drive the real code with this case and to judge what comes back is printed
+TheoremsAndEmit ==
+    LET j == Judged
+        cs == j.cs
+    IN /\ \A k \in DOMAIN j.th : j.th[k]
+       /\ PrintT(<<"A", ToJson([cs |-> cs, refpix |-> RefPixOf(cs), fetch |-> Fetch(cs), ext |-> CacheExt(cs), credits |-> CreditsFrom(cs),
+                                 hraise |-> HeadersRaise(cs), hd |-> j.hd, pr |-> j.pr, lev |-> Levels(cs), p2 |-> P2(cs), g0 |-> <<Gx0(cs), Gy0(cs)>>,
+                                 refdisp |-> RefDisplay(cs),
+                                 placeAtRef |-> (Comp(cs) /\ RefDisplay(cs) = <<Q(W(cs), 2), Q(H(cs), 2)>>),
+                                 dev |-> Devs(cs), ideal |-> j.ideal])>>)
 =============================================================================
